@@ -315,7 +315,17 @@ func (g gate) Run(t *task.Task) error {
 		x.mu.Unlock()
 		return errors.New("cancelled")
 	}
-	if s := x.all[t.Name]; s != nil && s.spec.Cond && s.spec.Outcome != oCondFalse && x.condDir != "" && x.strat.CancelKind != "cond" {
+	inShared := false
+	if s := x.all[t.Name]; s != nil {
+		// (not inside a pipeline included by several stages: there two loops ask the condition independently, and a
+		// condition that changes its answer between them is outside the statement)
+		for g := s.g; g != nil && g.parent != nil; g = g.parent.g {
+			if len(g.also) > 0 {
+				inShared = true
+			}
+		}
+	}
+	if s := x.all[t.Name]; s != nil && !inShared && s.spec.Cond && s.spec.Outcome != oCondFalse && x.condDir != "" && x.strat.CancelKind != "cond" {
 		// the stage has been started because its condition held; from now on the condition command answers
 		// "false" - what it says while (or after) the stage runs must not matter any more
 		lp := filepath.Join(x.condDir, strings.ReplaceAll(s.full, "/", "_"))
